@@ -17,6 +17,7 @@ Definition k_colon : str := [58].   (* ':' *)
 Definition k_comma : str := [44].   (* ',' *)
 Definition k_stub_end : str := [58;32;46;46;46].   (* ': ...' *)
 Definition k_AsyncIterator : str := [65;115;121;110;99;73;116;101;114;97;116;111;114].   (* 'AsyncIterator' *)
+Definition k_ret_gen : str := [41;32;45;62;32;65;115;121;110;99;73;116;101;114;97;116;111;114;91].   (* ') -> AsyncIterator[' *)
 Definition k_space : str := [32].   (* ' ' *)
 Definition k_close_arrow : str := [41;32;45;62;32].   (* ') -> ' *)
 Definition k_self : str := [115;101;108;102].   (* 'self' *)
@@ -88,7 +89,7 @@ Definition ends_sig (s : line) : bool := suffixb k_colon s && negb (suffixb k_co
 Definition proto_emit (acc : list line) : list line :=
   let lst := last acc [] in
   let init := removelast acc in
-  let is_gen := containsb k_AsyncIterator lst in
+  let is_gen := containsb k_ret_gen lst in   (* ') -> AsyncIterator[' in sig_stripped (fix of F13c) *)
   let init' := match init with
                | f :: r => (if is_gen && prefixb k_async_def f then k_def ++ skipn 10 f else f) :: r
                | [] => []
@@ -141,7 +142,7 @@ Fixpoint mock_go (who : str) (m : mmode) (ls : list line) : list line :=
           if prefixb k_overload s then s :: mock_go who MOver r
           else if (prefixb k_async_def s || prefixb k_def s) && containsb k_lparen s then
             let (sg, term) := collect_sig ls in
-            let is_gen := term && containsb k_AsyncIterator (join k_space sg) in
+            let is_gen := term && containsb k_ret_gen (last sg []) in   (* the closing line only (fix of F13c) *)
             sg ++ mock_body who is_gen
           else mock_go who MScan r
       | MOver =>
@@ -237,10 +238,6 @@ Section Names.
 
   (* guards *)
   Definition guard_F13a (l : list op) : bool := forallb (fun o => Nat.leb (length (o_tags o)) 1) l.   (* single_tag *)
-  (* F13c: no schema class name used in a signature contains the text AsyncIterator (both scanners
-     decide "async generator" by searching that text) *)
-  Definition guard_F13c (names : list str) : bool :=
-    forallb (fun n => negb (containsb k_AsyncIterator n)) names.
   Definition guard_F13b (l : list op) : bool :=                                                   (* tags_spelled_uniformly *)
     let ts := map first_tag l in
     forallb (fun a => forallb (fun b => negb (str_eqb (tag_key a) (tag_key b)) || str_eqb a b) ts) ts.
